@@ -194,6 +194,33 @@ pub(crate) struct LockServer {
     address: String,
     bind_timeout: std::time::Duration,
     listener: Option<tokio::net::TcpListener>,
+    // when the host resolves to several addresses the lock is all of them
+    other_listeners: Vec<tokio::net::TcpListener>,
+}
+
+// Bind every address the lock host resolves to. Binding only the first free one (what
+// `TcpListener::bind(&str)` does) would let a second invocation take the next address
+// while the first still holds the lock, e.g. `localhost` = `::1` + `127.0.0.1`.
+// Addresses that cannot be bound at all on this machine are skipped.
+async fn bind_all(address: &str) -> std::io::Result<Vec<tokio::net::TcpListener>> {
+    let mut listeners = Vec::new();
+    let mut last_err = None;
+    for addr in tokio::net::lookup_host(address).await? {
+        match tokio::net::TcpListener::bind(addr).await {
+            Ok(listener) => listeners.push(listener),
+            Err(e) if e.kind() == std::io::ErrorKind::AddrInUse => return Err(e),
+            Err(e) => last_err = Some(e),
+        }
+    }
+    if listeners.is_empty() {
+        return Err(last_err.unwrap_or_else(|| {
+            std::io::Error::new(
+                std::io::ErrorKind::AddrNotAvailable,
+                "lock address did not resolve",
+            )
+        }));
+    }
+    Ok(listeners)
 }
 impl LockServer {
     pub(crate) fn new(config: LockServerConfig) -> Self {
@@ -204,6 +231,7 @@ impl LockServer {
             address,
             bind_timeout,
             listener: None,
+            other_listeners: Vec::new(),
         }
     }
     pub(crate) async fn acquire(mut self) -> Result<Self, ServerError> {
@@ -212,15 +240,12 @@ impl LockServer {
             timeout = &self.config.bind_timeout_ms,
             "Acquiring lock"
         );
-        let timeout_res = tokio::time::timeout(
-            self.bind_timeout,
-            tokio::net::TcpListener::bind(&self.address),
-        )
-        .await;
+        let timeout_res = tokio::time::timeout(self.bind_timeout, bind_all(&self.address)).await;
         match timeout_res {
-            Ok(Ok(listener)) => {
+            Ok(Ok(mut listeners)) => {
                 info!("Lock acquired");
-                self.listener = Some(listener);
+                self.listener = Some(listeners.remove(0));
+                self.other_listeners = listeners;
                 Ok(self)
             }
             Ok(Err(e)) => {
